@@ -66,7 +66,9 @@ template <class F> Input<F> randomInput(vh::Rng& r, uint64_t seed, long maxN, bo
     constexpr int D = F::D;
     using Real = typename F::Real; using Data = typename F::Data;
     Input<F> in; in.seed = seed;
-    const long H = r.range(1, maxH(D));
+    const bool deep = r.coin(0.08);   // a deep sparse tree now and then (see tbx::deepHeightFor)
+    const long H = deep ? r.range(maxH(D) + 1, tbx::deepHeightFor<Real>(D)) : r.range(1, maxH(D));
+    if (deep) maxN = std::min<long>(maxN, 60);
     const bool exact = allowExact && r.coin(0.25);
     in.geo = tbx::genGeo<Real, D>(r, H, false, exact ? (r.coin() ? 0 : 3) : -1);
     if (exact) { // undo possible anisotropy scaling: keep dyadic
@@ -259,6 +261,17 @@ template <class F, class Tree> void checkStructure(const Tree& tree, long H, lon
 }
 
 //================================================================================================ C16 lookups
+// The order of queries is part of a lookup history (an implementation may remember the previous answer): ascending order in half of
+// the calls, a random order in the others, and the series always ends on hits (last, first or a random present index), so that whatever
+// follows - more queries, a rebuild, an execution - starts from "the previous query found something".
+inline void orderQueries(std::vector<long>& qs, const std::map<long, std::pair<long, long>>& present, vh::Rng& r) {
+    if (r.coin()) for (size_t i = qs.size(); i > 1; --i) std::swap(qs[i - 1], qs[r.below(i)]);
+    if (present.empty()) return;
+    auto it = present.begin(); std::advance(it, long(r.below(present.size())));
+    qs.push_back(it->first);
+    qs.push_back(r.coin(0.7) ? present.rbegin()->first : present.begin()->first);
+}
+
 template <class F, class Tree> void checkLookups(Tree& tree, long H, vh::Rng& r, bool exhaustive, Result& res, const std::string& tag) {
     constexpr int D = F::D;
     const typename F::Space& space = tree.getSpacialSystem();
@@ -276,6 +289,7 @@ template <class F, class Tree> void checkLookups(Tree& tree, long H, vh::Rng& r,
             for (int i = 0; i < 300; ++i) qs.push_back(long(r.below(uint64_t(ub + 4))) - 2);
             qs.push_back(-1); qs.push_back(-2); qs.push_back(ub); qs.push_back(ub + 1); qs.push_back(ub * 2 + 7);
         }
+        orderQueries(qs, present, r);
         for (long q : qs) {
             auto found = tree.findGroupWithCell(L, q);
             auto it = present.find(q);
@@ -321,6 +335,7 @@ template <class F, class Tree> void checkLookups(Tree& tree, long H, vh::Rng& r,
             for (int i = 0; i < 300; ++i) qs.push_back(long(r.below(uint64_t(ub + 4))) - 2);
             qs.push_back(-1); qs.push_back(ub); qs.push_back(ub + 1);
         }
+        orderQueries(qs, present, r);
         for (long q : qs) {
             auto found = tree.findGroupWithLeaf(q);
             auto it = present.find(q);
